@@ -9,6 +9,7 @@ CONSTANTS
   NOCOPY = {}
   OBJ = "grain"
   ALIASARG = FALSE
+  SAMEKEEP = FALSE
   UNWRITTEN = {}
   EmitMode = 0
 INVARIANT UOrtho
